@@ -22,7 +22,9 @@ ASSUMPTIONS = [
     "or parsed to the same fields as the unpadded text",
     "writer facet: for orbits not given in TLE form / TEME frame the elements to be found in the text are those of "
     "orbit.copy(form='TLE', frame='TEME') (form and frame conversions are C01/C02's subject)",
-    "EOP configuration missing/pass (epochs 1957-2056 lie outside the tables); dates UTC-labelled",
+    "EOP configuration missing/pass (epochs 1957-2056 lie outside the tables; TAI-UTC = 0 there, TT-UTC = 32.184 s, "
+    "GPS-UTC = -19 s), except facet writer_real_eop (real IERS tables, 1974-2016, leap seconds present); the orbit's "
+    "date is the UTC calendar instant drawn by the harness, re-labelled with Date.change_scale (C03's subject)",
     "fuzz facet: quick tier = the 32-entry fuzz corpus through the target's oracle; thorough tier = 4 x 500000 atheris "
     "executions of vf/fuzz/tle_target.py (reported as skipped, never as a violation, if atheris is not importable "
     "from /verif/.deps); exception-type leaks on malformed-but-checksum-valid lines are counted, not failed",
@@ -81,6 +83,12 @@ def _eop(shard):
     env.eop("missing-pass")
 
 
+def _eop_real(shard):
+    from .. import env
+
+    env.eop("real")
+
+
 def _close(name, got, want, ulp, unit=1.0, worst=None, half=Fraction(1, 2)):
     """|got/unit - want| <= half a unit of the last printed place (exact rational comparison)."""
     got = float(got)
@@ -122,16 +130,30 @@ def check_text_roundtrip(case):
     orb = tle.orbit()
     if case.get("via") == "copy":
         orb = orb.copy()
+    scale = case.get("scale", "UTC")
+    if scale != "UTC":
+        # the same instant under another label: the epoch of a TLE is its UTC reading
+        orb.date = orb.date.change_scale(scale)
     out = str(Tle.from_orbit(orb))
     d = text_diff(text, out)
     if d:
-        raise Violation(f"rewrite:{d[0]}", d[1], field=d[0])
-    return dict(nt=gt.nontrivial(f), cls=gt.classes(f))
+        raise Violation(f"rewrite:{d[0]}", d[1] + (f" [orbit date labelled {scale}]" if scale != "UTC" else ""), field=d[0])
+    day_f = f["eday"] % 10**8
+    cls = gt.classes(f) + [f"scale:{scale}"]
+    if min(day_f, 10**8 - day_f) <= 162000:
+        cls.append("epoch-within-140s-of-midnight")
+        if f["eday"] < 2 * 10**8 or f["eday"] // 10**8 >= 365:
+            cls.append("epoch-within-140s-of-new-year")
+    return dict(nt=gt.nontrivial(f), cls=cls)
+
+
+SCALES = ["UTC", "UTC", "TT", "TDB", "GPS", "TAI", "UT1"]
 
 
 @st.composite
 def rt_case(draw):
-    return dict(tle=draw(gt.fields(canonical=True)), via=draw(st.sampled_from(["direct", "direct", "copy"])))
+    return dict(tle=draw(gt.fields(canonical=True)), via=draw(st.sampled_from(["direct", "direct", "copy"])),
+                scale=draw(st.sampled_from(SCALES)))
 
 
 # ------------------------------------------------------------------ fields
@@ -226,8 +248,39 @@ def _expfloat(draw):
     return s * m * 10.0**x
 
 
+# UTC midnights that follow a leap second (tai-utc.dat, 1972-2017): (year, day of year)
+LEAP_MIDNIGHTS = [(1972, 183)] + [(y, 1) for y in (1973, 1974, 1975, 1976, 1977, 1978, 1979, 1980)] + [
+    (1981, 182), (1982, 182), (1983, 182), (1985, 182), (1988, 1), (1990, 1), (1991, 1), (1992, 183), (1993, 182),
+    (1994, 182), (1996, 1), (1997, 182), (1999, 1), (2006, 1), (2009, 1), (2012, 183), (2015, 182), (2017, 1)]
+_NEAR_US = gt.uniform_int(-140 * 10**6, 140 * 10**6)
+
+
 @st.composite
-def writer_case(draw):
+def writer_epochs(draw, real_eop):
+    """(year, day of year, microseconds from 0h of that day - may be negative, class).
+    Classes: uniform; within 140 s of 1 January 0h UTC (both sides: covers 0h of 1 January in every
+    scale's own reading, the offsets being < 70 s); within 140 s of any UTC midnight; day 366 of a
+    leap year; with the real EOP tables also within 140 s of the midnights that follow a leap second."""
+    lo, hi = (1974, 2016) if real_eop else (1958, 2056)
+    year = draw(gt.uniform_int(lo, hi))
+    nd = 366 if tf.is_leap(year) else 365
+    kind = draw(st.integers(0, 9 if real_eop else 7))
+    if kind <= 2:
+        return year, 1, draw(_NEAR_US), "new-year"
+    if kind == 3:
+        return year, draw(st.integers(1, nd)), draw(_NEAR_US), "midnight"
+    if kind == 4:
+        year = draw(st.sampled_from([y for y in range(lo, hi + 1) if tf.is_leap(y)]))
+        return year, 366, draw(gt.ints(0, 86400 * 10**6 - 1, [1, 86400 * 10**6 - 433])), "day-366"
+    if kind >= 8:
+        y, d = draw(st.sampled_from([m for m in LEAP_MIDNIGHTS if m[0] >= lo]))
+        return y, d, draw(_NEAR_US), "leap-second-midnight"
+    return (year, draw(st.integers(1, nd)),
+            draw(gt.ints(0, 86400 * 10**6 - 1, [1, 43200 * 10**6, 432, 431, 433])), "uniform")
+
+
+@st.composite
+def writer_case(draw, real_eop=False):
     on_grid = draw(st.integers(0, 3)) == 0
     kind = draw(st.integers(0, 9))
     if kind == 0:
@@ -261,8 +314,7 @@ def writer_case(draw):
         el["n"] = round(el["n"], 8)
         if form == "tle" and frame == "TEME":
             el["e"] = min(el["e"], 0.9999999)
-    yy, eday = draw(gt.epochs())
-    micro = draw(gt.ints(0, 86400 * 10**6 - 1, [1, 43200 * 10**6, 432, 431, 433]))
+    year, doy, micro, eclass = draw(writer_epochs(real_eop))
     meta = dict(
         name=draw(st.one_of(st.none(), gt.names())),
         norad=draw(gt.ints(0, 99999, [9, 10, 9999, 10000])),
@@ -276,7 +328,8 @@ def writer_case(draw):
         bstar=draw(_expfloat()),
         via=draw(st.sampled_from(["attr", "kwarg"])),
     )
-    return dict(el=el, form=form, frame=frame, year=tf.year4(yy), doy=eday // 10**8, micro=micro, meta=meta)
+    return dict(el=el, form=form, frame=frame, year=year, doy=doy, micro=micro, meta=meta, eclass=eclass,
+                scale=draw(st.sampled_from(SCALES)))
 
 
 def _angle_err(got_deg, want_deg):
@@ -306,7 +359,11 @@ def check_writer(case):
             data["name"] = meta["name"]
     else:
         kwargs = dict(norad_id=norad, cospar_id=cospar, name=meta["name"])
-    orb = Orbit(coords, Date(epoch), "TLE", "TEME", "Sgp4", **data)
+    date = Date(epoch)
+    scale = case.get("scale", "UTC")
+    if scale != "UTC":
+        date = date.change_scale(scale)  # the same instant, labelled in another scale
+    orb = Orbit(coords, date, "TLE", "TEME", "Sgp4", **data)
     native = case["form"] == "tle" and case["frame"] == "TEME"
     if not native:
         orb = orb.copy(form=case["form"], frame=case["frame"])
@@ -352,6 +409,12 @@ def check_writer(case):
     near("argp", p["argp"], deg[3], u4, angle=True)
     near("M", p["ma"], deg[4], u4, angle=True)
     near("n", p["n"], deg[5], u8)
+    # the format's angle fields run over [0, 360) (inclination [0, 180]): 360.0000 is not a value of the field
+    for nm, key, top in (("i", "inc", 180), ("raan", "raan", 360), ("argp", "argp", 360), ("M", "ma", 360)):
+        if p[key] > top or (p[key] == top and top == 360):
+            raise Violation("writer:angle-range", f"{nm} written as {float(p[key]):.4f} deg, outside the field's range "
+                            f"[0, 360); the orbit has {deg[('i', 'raan', 'e', 'argp', 'M').index(nm)]!r} deg; lines {lines}",
+                            field=nm)
     near("ndot", p["ndot_half"], meta["ndot_half"], u8)
     for name, key in (("ndotdot", "nddot_sixth"), ("bstar", "bstar")):
         v = meta[key]
@@ -380,9 +443,11 @@ def check_writer(case):
         if got != want:
             raise Violation(f"writer:parse-back-{nm}", f"{nm} given as {want!r}, read back from the written text "
                             f"as {got!r}; lines {lines}")
-    cls = [f"form:{case['form']}", f"frame:{case['frame']}"]
+    cls = [f"form:{case['form']}", f"frame:{case['frame']}", f"scale:{scale}", f"epoch:{case.get('eclass', 'uniform')}"]
     if el["e"] > 0.9:
         cls.append("e>0.9")
+    if any(359.99995 <= deg[k] % 360 < 360 for k in (1, 3, 4)):
+        cls.append("angle-within-5e-5-below-360")
     return dict(nt=True, cls=cls, ratio=worst[0])
 
 
@@ -908,8 +973,13 @@ FACETS = [
           rule="same rule; two thirds of the cases use non-canonical legal encodings",
           quick=(6, 700), thorough=(16, 8000)),
     Facet("writer", lambda s, t: writer_case(), check_writer, setup=_eop,
-          rule="every case (orbit + metadata drawn as floats, not on the print grid in 3 of 4 cases)",
+          rule="every case (orbit + metadata drawn as floats, not on the print grid in 3 of 4 cases; date labelled "
+               "UTC/TT/TDB/GPS/TAI/UT1; 5 of 8 epochs within 140 s of the turn of the year / a UTC midnight / on day 366)",
           quick=(6, 500), thorough=(16, 5000)),
+    Facet("writer_real_eop", lambda s, t: writer_case(real_eop=True), check_writer, setup=_eop_real,
+          rule="every case; real IERS tables (1974-2016): date labelled UTC/TT/TDB/GPS/TAI/UT1, epochs massed on the "
+               "turn of the year, UTC midnights, leap-second midnights and day 366",
+          quick=(4, 300), thorough=(8, 4000)),
     Facet("reject", lambda s, t: reject_case(), check_reject, setup=_eop,
           rule="same rule as text_roundtrip; per case all ~900 digit replacements, ~140 deletions, ~270 "
                "insertions, 28 renumberings and 12 paddings are tried",
